@@ -28,6 +28,9 @@ NAN = float("nan")
 INNER_DOC = {"blocks": [[{"name": "RETURN_VALUE"}]], "filename": "f", "first_line_number": 1, "name": "g", "stacksize": 1,
              "type": {"args": {"positional_only": ["a"], "positional_or_keyword": ["b", {"string": "'\\ud801'"}], "var_positional": {"string": "'\\ud800'"},
                                "keyword_only": ["k"], "var_keyword": "kw"}, "docstring": "", "type": "GENERATOR"}}
+# `def h(): pass` / `lambda: 0`: every field of its Function equals the default, so the document says "type": {} - an empty object, which is not "no type"
+PLAIN_DOC = {"blocks": [[{"name": "RETURN_VALUE"}]], "filename": "f", "first_line_number": 1, "name": "h", "stacksize": 1, "type": {}}
+PLAIN_EXP = E("CodeData", blocks=((E("Instruction", name="RETURN_VALUE"),),), filename="f", first_line_number=1, name="h", stacksize=1, type=E("Function"))
 INNER_EXP = E("CodeData", blocks=((E("Instruction", name="RETURN_VALUE"),),), filename="f", first_line_number=1, name="g", stacksize=1,
               type=E("Function", args=E("Args", positional_only=("a",), positional_or_keyword=("b", "\ud801"), var_positional="\ud800", keyword_only=("k",), var_keyword="kw"),
                      docstring="", type="GENERATOR"))
@@ -178,6 +181,7 @@ def fold_rule(an: Analysis, rep, rule="R07.W", foreign_documents=False):
                   "urlsafe_b64decode": base64.urlsafe_b64decode, "isnan": math.isnan, "isinf": math.isinf, "NotImplementedError": NotImplementedError, "ValueError": ValueError})
     import copy as _copy
     for name, doc, exp in (("a function with every kind of parameter, an empty docstring and a tagged name", INNER_DOC, INNER_EXP),
+                           ("a function without parameters, docstring or kind (its type is the empty object)", PLAIN_DOC, PLAIN_EXP),
                            ("a module with every operand kind, every tagged constant, a nested code object with a position override, unreferenced entries and a trailing line", OUTER_DOC, OUTER_EXP)):
         ev = ObjEval(resolve, extra=extra)
         ev.module_assigns = m.assigns
@@ -353,6 +357,7 @@ def encode_fold_rule(an: Analysis, rep, rule="R07.V"):
              "dataclasses": {"MISSING": MISSING, "fields": fields_of, "is_dataclass": lambda o: isinstance(o, Obj) and "__cls__" in o}}
     extra = {**stdlib_names(m), **extra}
     for name, doc, exp in (("a function with every kind of parameter, an empty docstring and a tagged name", INNER_DOC, INNER_EXP),
+                           ("a function without parameters, docstring or kind (its type is the empty object)", PLAIN_DOC, PLAIN_EXP),
                            ("a module with every operand kind, every tagged constant, a nested code object with a position override, unreferenced entries and a trailing line", OUTER_DOC, OUTER_EXP)):
         ev = ObjEval(resolve, extra=extra)
         ev.module_assigns = {**{k: v for mod in an.prog.modules.values() if mod.name.startswith("code_data") and not mod.is_test for k, v in mod.assigns.items()}, **m.assigns}
